@@ -6,9 +6,10 @@
  "mode": "harness",
  "link_repo": ["type.c"],
  "unwind": 5,
- "variants": {"dims0": ["-DV_DIMS=0","-DV_ARR0=0"], "dims1": ["-DV_DIMS=1","-DV_ARR0=1"], "dims2": ["-DV_DIMS=2","-DV_ARR0=1"], "dims2s": ["-DV_DIMS=2","-DV_ARR0=0"]},
+ "variants": {"dims0.ic": ["-DV_DIMS=0", "-DV_ARR0=0", "-DV_K0=2", "-DV_KI=0"], "dims1.dl": ["-DV_DIMS=1", "-DV_ARR0=1", "-DV_K0=5", "-DV_KI=3"], "dims2.sf": ["-DV_DIMS=2", "-DV_ARR0=1", "-DV_K0=1", "-DV_KI=4"], "dims2s.ic": ["-DV_DIMS=2", "-DV_ARR0=0", "-DV_K0=2", "-DV_KI=0"]},
+ "tiers": {"thorough": {"variants": {"dims0.ic": ["-DV_DIMS=0", "-DV_ARR0=0", "-DV_K0=2", "-DV_KI=0"], "dims0.dl": ["-DV_DIMS=0", "-DV_ARR0=0", "-DV_K0=5", "-DV_KI=3"], "dims0.sf": ["-DV_DIMS=0", "-DV_ARR0=0", "-DV_K0=1", "-DV_KI=4"], "dims1.ic": ["-DV_DIMS=1", "-DV_ARR0=1", "-DV_K0=2", "-DV_KI=0"], "dims1.dl": ["-DV_DIMS=1", "-DV_ARR0=1", "-DV_K0=5", "-DV_KI=3"], "dims1.sf": ["-DV_DIMS=1", "-DV_ARR0=1", "-DV_K0=1", "-DV_KI=4"], "dims2.ic": ["-DV_DIMS=2", "-DV_ARR0=1", "-DV_K0=2", "-DV_KI=0"], "dims2.dl": ["-DV_DIMS=2", "-DV_ARR0=1", "-DV_K0=5", "-DV_KI=3"], "dims2.sf": ["-DV_DIMS=2", "-DV_ARR0=1", "-DV_K0=1", "-DV_KI=4"], "dims2s.ic": ["-DV_DIMS=2", "-DV_ARR0=0", "-DV_K0=2", "-DV_KI=0"], "dims2s.dl": ["-DV_DIMS=2", "-DV_ARR0=0", "-DV_K0=5", "-DV_KI=3"], "dims2s.sf": ["-DV_DIMS=2", "-DV_ARR0=0", "-DV_K0=1", "-DV_KI=4"]}, "timeout": 900}},
  "unwindset": ["emittype:3"], "cbmc_flags": ["--object-bits", "10"],
- "canary_variant": "dims2",
+ "canary_variant": "dims2.sf",
  "kind": "bounded",
  "bound": "a struct with two members: m0 a scalar or a 1-dimensional scalar array (<= 4 elements), m1 a nested struct (one scalar member) or a 1- or 2-dimensional array of it (dimensions <= 3)",
  "timeout": 300, "replay": false,
@@ -117,7 +118,8 @@ static char classof(int kind) { return "bhwlsd"[kind]; }
 void
 harness(void)
 {
-	IN(int, in_k0); IN(unsigned, in_n0); IN(int, in_ki); unsigned in_dims = V_DIMS; IN(unsigned, in_d1); IN(unsigned, in_d2);
+	int in_k0 = V_K0, in_ki = V_KI;   /* member scalar kinds: constants per run (a symbolic type kind makes "is it an array?" symbolic) */
+	IN(unsigned, in_n0); unsigned in_dims = V_DIMS; IN(unsigned, in_d1); IN(unsigned, in_d2);
 	unsigned long long cnt1, off1;
 	int io, ii;
 	unsigned i;
